@@ -1,10 +1,11 @@
 """C31 Upgrading a repository to format v2 preserves all data."""
 import json, os
 import verif
-from props import repo_common
+from props import repo_common, ops_common
 
 
 def run(ctx):
+    design = ops_common.keys_design_runs(ctx)
     out = ctx.go_test("cmd/restic", "^TestVerif_C31$", timeout=3300)
     n, bad, lines = ctx.check_records("Fn_Upgrade", os.path.join(out, "recs.ndjson"))
     for i in bad[:200]:
@@ -18,4 +19,4 @@ def run(ctx):
     invs = [i for i in repo_common.ALL_INV]
     rules = [r for r in repo_common.ALL_RULES if r != "R_ConfigWriteOnce"]
     return repo_common.finish_trace(ctx, out, "fault_enumeration", invs=invs, rules=rules,
-                                    extra_cov={"state_records_checked_by_tlc": n, "records_rejected": len(bad), "exhaustive": True})
+                                    extra_cov={"design_model_runs": design, "state_records_checked_by_tlc": n, "records_rejected": len(bad), "exhaustive": True})
